@@ -1,4 +1,7 @@
-use std::collections::HashMap;
+use std::collections::{
+    HashMap,
+    HashSet,
+};
 
 use astria_core::crypto::{
     Signature,
@@ -29,6 +32,9 @@ pub(super) enum QuorumError {
         commit_voting_power: u64,
         total_voting_power: u64,
     },
+
+    #[error("commit contained more than one signature of validator `{validator}`")]
+    DuplicateSignature { validator: tendermint::account::Id },
 
     #[error("commit contained an empty signature field for validator `{validator}`")]
     EmptySignature { validator: tendermint::account::Id },
@@ -113,6 +119,9 @@ pub(super) fn ensure_commit_has_quorum(
         .collect::<HashMap<_, _>>();
 
     let mut commit_voting_power = 0u64;
+    // The voting power of a validator must be counted at most once, however often its
+    // signature is listed in the commit.
+    let mut counted_validators = HashSet::new();
     for vote in &commit.signatures {
         // we only care about votes that are for the Commit.BlockId (ignore absent validators and
         // votes for nil)
@@ -156,6 +165,12 @@ pub(super) fn ensure_commit_has_quorum(
             &validator.pub_key,
             signature.as_bytes(),
         )?;
+
+        if !counted_validators.insert(*validator_address) {
+            return Err(QuorumError::DuplicateSignature {
+                validator: *validator_address,
+            });
+        }
 
         commit_voting_power = commit_voting_power.saturating_add(validator.power());
     }
